@@ -1,10 +1,9 @@
-GROUPS = []
-for _fs in (48000, 24000, 16000, 12000, 8000):
-    GROUPS.append(dict(name='decode_native_fs%d' % _fs, cls='P', tu='C01_decode_native.c', entry='h_decode_native', canary='real',
-        replace=['opus_decode_frame'], defines=['-DVERIF_FS=%d' % _fs], unwind=2, unwind_fn={'opus_packet_parse_impl': 49}, timeout=1800, expect_canaries=2,
-        functions=['opus_decode_native', 'opus_packet_get_samples_per_frame', 'opus_packet_get_mode', 'opus_packet_get_bandwidth', 'opus_packet_get_nb_channels'],
-        trusted=['ASSUMED contract of opus_decode_frame (result range, exact duration of a real frame, PLC multiple of 2.5 ms, writes only st fields and pcm[0..frame_size*channels))',
-                 'stub of opus_packet_parse_impl carrying exactly the clauses E2-E9 enforced on the real parser under C06',
-                 'frame-only stub of opus_pcm_soft_clip (its contract is enforced under C19)'],
-        what='opus_decode_native at Fs=%d: result range, argument rules, PLC/FEC exact duration, last_packet_duration, invariant; recursion unwound, PLC and frame loops by contract' % _fs))
-META = {}
+# C09 (partial): the PLC / FEC duration and argument rules live in opus_decode_native and opus_decode_frame; the proof
+# units are the same as C01's (same TUs, same harness assertions: the C09 clauses are the assertions labelled PLC / FEC /
+# concealment).  They are re-run here so that C09's evidence is produced by its own check.
+import copy
+from proofs import reg_C01
+GROUPS = [copy.deepcopy(g) for g in reg_C01.GROUPS]
+for g in GROUPS:
+    g.pop('prop', None)
+META = dict(reg_C01.META)
